@@ -184,11 +184,11 @@ fn judge_date_pair(rec: &mut Rec, d1: i64, d2: i64) {
 
 pub fn run(ctx: &Ctx) -> PropResult {
     let mut wls = vec![];
-    wls.push(Workload::cases("datetime_pairs", ctx.n(300_000, 10_000_000), |rec, _, rng| {
+    wls.push(Workload::cases("datetime_pairs", ctx.count(300_000, 10_000_000), |rec, _, rng| {
         let p = gen_pair(rng);
         judge_pair(rec, &p);
     }));
-    wls.push(Workload::cases("time_pairs", ctx.n(150_000, 4_000_000), |rec, _, rng| {
+    wls.push(Workload::cases("time_pairs", ctx.count(150_000, 4_000_000), |rec, _, rng| {
         let dn = 86_400_000_000_000u64;
         let n1 = match rng.below(3) {
             0 => rng.below(86_400) * 1_000_000_000 + *rng.pick(&[0u64, 1, 999_999_999, 500_000_000]),
@@ -205,7 +205,7 @@ pub fn run(ctx: &Ctx) -> PropResult {
         };
         judge_time_pair(rec, n1, n2, gen_offset(rng), gen_offset(rng));
     }));
-    wls.push(Workload::cases("date_pairs", ctx.n(100_000, 3_000_000), |rec, _, rng| {
+    wls.push(Workload::cases("date_pairs", ctx.count(100_000, 3_000_000), |rec, _, rng| {
         let d1 = match rng.below(3) {
             0 => rng.range_i64(-800, 800),
             1 => *rng.pick(&[cal::MIN_DAY, cal::MAX_DAY, cal::MIN_DAY + 1, cal::MAX_DAY - 1, 0, -1]),
